@@ -8,9 +8,25 @@
    [value] holds every JSON value; object keys are strings, as in JSON).  What is proved is the logic of
    pycfmodel's own validators (Robust/Validators.v, tied to the code by harness/props/c19.py stream (a));
    pydantic-core's internals, the interpreter's recursion limit (known finding F17), time and memory are
-   runtime, tied by the sandboxed fuzzer of stream (b): partial. *)
+   runtime, tied by the sandboxed fuzzer of stream (b): partial.
+
+   WHOLE parse (second half of this file) is the schema interpreter of Typed/Roundtrip.v -- pydantic validating plain
+   data against the class table generated from the live classes -- composed with its leaf validators:
+   C19_parse_clean (for every table and every value the outcome is a model, ValidationError, "declined" or the nesting
+   limit, PROVIDED every leaf validator is clean: no structure, union, default, extra-mode or hook adds an exception kind),
+   C19_parse_clean_depth (the nesting limit is reached only by values nested deeper than the fuel), C19_parse_fuel_monotone,
+   C19_leaf_exception_escapes (the converse), C19_parse_clean_live_schema / _runner (the instances on gen/Schema.v),
+   C19_interpreter_leaves_are_the_validators (the leaves of the interpreter ARE the validators of the first half), and the
+   magnitude-free cost: C19_cost_same_result, C19_cost_bound (steps <= weight(table, annotation, fuel) * nodes),
+   C19_cost_bound_closed_form, C19_cost_linear_union_free, C19_cost_bound_live_schema. *)
 From Coq Require Import List Bool NArith ZArith.
 From PV Require Import Base.Str Base.Value Resolver.Consts Resolver.Resolve Robust.RConsts Robust.Validators Robust.ValidatorsFacts.
+(* the interpreter and its vocabulary are used under qualified names (Roundtrip.validate, Typed.Schema.ftype, Leaves.validate_binary
+   ...): several of its leaves bear the names of the validators above *)
+From PV Require Import Base.WireFacts.
+From PV Require Typed.Schema Typed.Leaves Typed.Roundtrip Typed.RoundtripRun Typed.RoundtripExamples.
+From PV Require Import Typed.ParseClean Typed.ParseCost.
+From PVGen Require Schema.
 Import ListNotations.
 Local Open Scope N_scope.
 
@@ -130,3 +146,183 @@ Example C19_remove_colon_collapses :
   remove_colon (VDict [([97; 58; 98], VInt 1); ([97; 98], VInt 2)]) = Ok (VDict [([97; 98], VInt 2)]) /\
   remove_colon (VList []) = Ok (VList []).
 Proof. split; reflexivity. Qed.
+
+(* ================================================================================================================== *)
+(* WHOLE parse: the schema interpreter composed with its leaf validators.
+   [Roundtrip.validate tbl modelled strict leafv n t v]: the class table, the (Type string, class) list of the resource union,
+   GenericResource._strict, the leaf validators, the fuel (how deep model classes may nest), the annotation, the data. *)
+Local Close Scope N_scope.
+
+(* If every leaf validator answers -- on every value -- with a value, with ValidationError, or is declined by the model, then
+   for EVERY class table and EVERY value (wrong container kinds, numbers where objects are expected, unknown or repeated keys,
+   anything) parse answers with a model, ValidationError, "declined", or the nesting limit. *)
+Theorem C19_parse_clean :
+  forall (tbl : list Typed.Schema.cschema) (modelled : list (str * str)) (strict : bool)
+         (leafv : Typed.Schema.leaf -> value -> res value),
+    (forall k v, (exists w, leafv k v = Ok w) \/ leafv k v = Err EValidation \/ leafv k v = Err EUndefined) ->
+    forall (n : nat) (t : Typed.Schema.ftype) (v : value),
+      (exists x, Roundtrip.validate tbl modelled strict leafv n t v = Ok x) \/
+      Roundtrip.validate tbl modelled strict leafv n t v = Err EValidation \/
+      Roundtrip.validate tbl modelled strict leafv n t v = Err EUndefined \/
+      Roundtrip.validate tbl modelled strict leafv n t v = Err ERecursion.
+Proof. exact validate_clean. Qed.
+Print Assumptions C19_parse_clean.
+(* ... never TypeError, ValueError, AttributeError, IndexError, KeyError *)
+Theorem C19_parse_never_other_exception :
+  forall tbl modelled strict leafv,
+    (forall k v, (exists w, leafv k v = Ok w) \/ leafv k v = Err EValidation \/ leafv k v = Err EUndefined) ->
+    forall n t v e, Roundtrip.validate tbl modelled strict leafv n t v = Err e ->
+      e <> EType /\ e <> EValue /\ e <> EAttr /\ e <> EIndex /\ e <> EKey.
+Proof. exact validate_never_other. Qed.
+Print Assumptions C19_parse_never_other_exception.
+(* the nesting limit is reached only by a value nested deeper than the fuel (whatever the table, cyclic ones included):
+   below it the answer is a model, ValidationError, or declined *)
+Theorem C19_parse_clean_depth :
+  forall tbl modelled strict leafv,
+    (forall k v, (exists w, leafv k v = Ok w) \/ leafv k v = Err EValidation \/ leafv k v = Err EUndefined) ->
+    forall n t v, (vdepth v <= n)%nat ->
+      (exists x, Roundtrip.validate tbl modelled strict leafv n t v = Ok x) \/
+      Roundtrip.validate tbl modelled strict leafv n t v = Err EValidation \/
+      Roundtrip.validate tbl modelled strict leafv n t v = Err EUndefined.
+Proof. exact validate_clean_depth. Qed.
+Print Assumptions C19_parse_clean_depth.
+(* more fuel never changes a model or a ValidationError into anything else (no hypothesis at all) *)
+Theorem C19_parse_fuel_monotone :
+  forall tbl modelled strict leafv (n m : nat) t v r, (n <= m)%nat ->
+    Roundtrip.validate tbl modelled strict leafv n t v = r -> (exists x, r = Ok x) \/ r = Err EValidation ->
+    Roundtrip.validate tbl modelled strict leafv m t v = r.
+Proof. exact validate_fuel_monotone. Qed.
+Print Assumptions C19_parse_fuel_monotone.
+(* the converse: what a leaf validator raises leaves parse as it is -- cleanliness of the leaves is necessary *)
+Theorem C19_leaf_exception_escapes :
+  forall tbl modelled strict leafv n k v e,
+    leafv k v = Err e -> Roundtrip.validate tbl modelled strict leafv n (Typed.Schema.TLeaf k) v = Err e.
+Proof. exact leaf_error_escapes. Qed.
+Print Assumptions C19_leaf_exception_escapes.
+
+(* On the class table generated from the live classes, with the leaf validators the runner uses (Leaves.leaf_validate):
+   pycfmodel's own leaf validators are models and PROVED clean; [core] stands for the validators of pydantic-core and class
+   Generic, whose cleanliness is the hypothesis (it is what the sandboxed fuzzer observes; F26 was a violation of it). *)
+Theorem C19_parse_clean_live_schema :
+  forall (core : Typed.Schema.leaf -> value -> res value),
+    (forall k v, Leaves.is_core k = true ->
+       (exists w, core k v = Ok w) \/ core k v = Err EValidation \/ core k v = Err EUndefined) ->
+    forall strict n t v,
+      let r := Roundtrip.validate PVGen.Schema.CLASSES PVGen.Schema.RESOURCE_MODELS strict (Leaves.leaf_validate core) n t v in
+      ((exists x, r = Ok x) \/ r = Err EValidation \/ r = Err EUndefined \/ r = Err ERecursion) /\
+      ((vdepth v <= n)%nat -> (exists x, r = Ok x) \/ r = Err EValidation \/ r = Err EUndefined).
+Proof. exact validate_clean_live. Qed.
+Print Assumptions C19_parse_clean_live_schema.
+(* the executable instance (RoundtripRun.val_dumped: the same table, fuel 64, the runner's oracle): nothing is assumed *)
+Theorem C19_parse_clean_runner :
+  forall strict t v,
+    let r := RoundtripRun.val_dumped strict t v in
+    ((exists x, r = Ok x) \/ r = Err EValidation \/ r = Err EUndefined \/ r = Err ERecursion) /\
+    ((vdepth v <= 64)%nat -> (exists x, r = Ok x) \/ r = Err EValidation \/ r = Err EUndefined).
+Proof. exact validate_clean_runner. Qed.
+Print Assumptions C19_parse_clean_runner.
+(* the leaves and hooks of the interpreter are the custom validators of the first half under pydantic's contract *)
+Theorem C19_interpreter_leaves_are_the_validators :
+  (forall v, Leaves.semi_strict_bool v = pydantic_wrap (semi_strict_bool v)) /\
+  (forall v, Leaves.validate_binary v = pydantic_wrap (validate_binary v)) /\
+  (forall v, Leaves.function_dict v = pydantic_wrap (check_fn_dict v)) /\
+  (forall modelled strict v, Roundtrip.check_type modelled strict v = pydantic_wrap (check_type strict (keys modelled) v)) /\
+  (forall w, Leaves.effect_hook w = pydantic_wrap (effect_validator w)) /\
+  (forall v, Ok (Leaves.tag_value_hook v) = tag_coerce v).
+Proof. exact leaves_are_the_validators. Qed.
+Print Assumptions C19_interpreter_leaves_are_the_validators.
+
+(* ---- the cost of whole parse: [validate_c] = the same interpreter with a step counter (one step per node of the input
+        visited, per union alternative that visits it; a leaf costs 1 whatever is in it) ---- *)
+Theorem C19_cost_same_result :
+  forall tbl modelled strict leafv n t v,
+    fst (validate_c tbl modelled strict leafv n t v) = Roundtrip.validate tbl modelled strict leafv n t v.
+Proof. exact validate_c_fst. Qed.
+Print Assumptions C19_cost_same_result.
+(* steps <= weight * number of nodes, for every table, annotation, value, fuel and leaf validators; [weight] is computed
+   from the table, the annotation and the fuel: it never sees the value, so neither numeric magnitudes nor the width of
+   address ranges nor the length of texts can matter *)
+Theorem C19_cost_bound :
+  forall tbl modelled strict leafv n t v,
+    (snd (validate_c tbl modelled strict leafv n t v) <= weight tbl modelled n t * vsize v)%nat.
+Proof. exact cost_bound. Qed.
+Print Assumptions C19_cost_bound.
+(* in closed form: (alternatives of the annotation) * (largest number of alternatives of one field of the table) ^ fuel *)
+Theorem C19_cost_bound_closed_form :
+  forall tbl modelled strict leafv n t v,
+    (snd (validate_c tbl modelled strict leafv n t v) <= fwidth modelled t * table_width tbl modelled ^ n * vsize v)%nat.
+Proof. exact cost_bound_pow. Qed.
+Print Assumptions C19_cost_bound_closed_form.
+(* no unions (Optional, List, Dict, classes and leaves only; field names distinct): linear with constant 1 *)
+Theorem C19_cost_linear_union_free :
+  forall tbl modelled strict leafv n t v,
+    plain_table tbl = true -> plain t = true -> (snd (validate_c tbl modelled strict leafv n t v) <= vsize v)%nat.
+Proof. exact cost_linear_plain. Qed.
+Print Assumptions C19_cost_linear_union_free.
+(* the live classes: linear in the size of the template (the table is acyclic; the kernel computes its weight) *)
+Theorem C19_cost_bound_live_schema :
+  forall strict leafv v,
+    (snd (validate_c PVGen.Schema.CLASSES PVGen.Schema.RESOURCE_MODELS strict leafv 64 CFMODEL_T v) <= 64 * vsize v)%nat.
+Proof. exact cost_bound_live. Qed.
+Print Assumptions C19_cost_bound_live_schema.
+
+(* ---- examples ---- *)
+Definition k_Resources : str := [82;101;115;111;117;114;99;101;115]%N.
+Definition k_Type : str := [84;121;112;101]%N.
+Definition k_r : str := [114]%N.
+Definition parse_live (v : value) : res Roundtrip.tval := RoundtripRun.val_dumped true CFMODEL_T v.
+(* garbage against the live table: a number, a list, Resources a list, a resource a number, Type a list, an unknown section:
+   ValidationError; a repeated key (not JSON): declined *)
+Example C19_ex_parse_garbage :
+  parse_live (VInt 5) = Err EValidation /\
+  parse_live (VList []) = Err EValidation /\
+  parse_live (VDict [(k_Resources, VList [])]) = Err EValidation /\
+  parse_live (VDict [(k_Resources, VDict [(k_r, VInt 5)])]) = Err EValidation /\
+  parse_live (VDict [(k_Resources, VDict [(k_r, VDict [(k_Type, VList [VStr s_a])])])]) = Err EValidation /\
+  parse_live (VDict [(s_a, VInt 1)]) = Err EValidation /\
+  parse_live (VDict [(k_Resources, VDict []); (k_Resources, VDict [])]) = Err EUndefined.
+Proof. repeat split; vm_compute; reflexivity. Qed.
+(* a valid template: accepted, 64 steps for 54 nodes (bound 64 * 54) *)
+Example C19_ex_parse_template :
+  (exists x, fst (validate_c PVGen.Schema.CLASSES PVGen.Schema.RESOURCE_MODELS true (Leaves.leaf_validate RoundtripRun.core_dumped)
+                    64 CFMODEL_T RoundtripExamples.EX_RAW) = Ok x) /\
+  vsize RoundtripExamples.EX_RAW = 54%nat /\ vdepth RoundtripExamples.EX_RAW = 11%nat /\
+  (snd (validate_c PVGen.Schema.CLASSES PVGen.Schema.RESOURCE_MODELS true (Leaves.leaf_validate RoundtripRun.core_dumped)
+          64 CFMODEL_T RoundtripExamples.EX_RAW) <= 2 * 54)%nat.
+Proof. split; [eexists; vm_compute; reflexivity|]. split; [vm_compute; reflexivity|]. split; [vm_compute; reflexivity|]. apply Nat.leb_le. vm_compute. reflexivity. Qed.
+(* the leaf hypothesis is not idle: the pre-repair validate_binary (finding F11) lets TypeError out of the interpreter *)
+Example C19_ex_unclean_leaf_escapes :
+  Roundtrip.validate [] [] true (fun _ v => Leaves.validate_binary_old v) 0 (Typed.Schema.TLeaf Typed.Schema.LBinary) (VInt 5) = Err EType /\
+  Roundtrip.validate [] [] true (fun _ v => Leaves.validate_binary v) 0 (Typed.Schema.TLeaf Typed.Schema.LBinary) (VInt 5) = Err EValidation.
+Proof. split; reflexivity. Qed.
+(* the nesting limit: six levels need fuel 6 (table T_REC: a class that reaches itself through a union) *)
+Example C19_ex_depth :
+  vdepth (chain 5) = 6%nat /\
+  Roundtrip.validate T_REC [] true (Leaves.leaf_validate RoundtripRun.core_dumped) 5 (Typed.Schema.TModel [78%N]) (chain 5) = Err ERecursion /\
+  Roundtrip.validate T_REC [] true (Leaves.leaf_validate RoundtripRun.core_dumped) 6 (Typed.Schema.TModel [78%N]) (chain 5) = Err EValidation /\
+  Roundtrip.validate T_REC [] true (Leaves.leaf_validate RoundtripRun.core_dumped) 64 (Typed.Schema.TModel [78%N]) (chain 5) = Err EValidation.
+Proof. repeat split; vm_compute; reflexivity. Qed.
+(* a class that reaches itself through a union of width 2: 2^(k+1) - 1 steps for k+1 nodes (exponential in the depth is
+   inherent); bound at fuel 8: weight 2^8 per node *)
+Example C19_ex_cost_exponential :
+  map (fun k => snd (validate_c T_REC [] true (Leaves.leaf_validate RoundtripRun.core_dumped) 8 (Typed.Schema.TModel [78%N]) (chain k)))
+      [0; 1; 2; 3; 4; 5]%nat = [1; 3; 7; 15; 31; 63]%nat /\
+  map (fun k => vsize (chain k)) [0; 1; 2; 3; 4; 5]%nat = [1; 2; 3; 4; 5; 6]%nat /\
+  weight T_REC [] 8 (Typed.Schema.TModel [78%N]) = 256%nat /\ table_width T_REC [] = 2%nat.
+Proof. repeat split; vm_compute; reflexivity. Qed.
+(* a union-free table: every node once; and garbage costs no more *)
+Example C19_ex_cost_linear :
+  plain_table T_PLAIN = true /\ vsize plain_value = 8%nat /\
+  (exists x, validate_c T_PLAIN [] true (Leaves.leaf_validate RoundtripRun.core_dumped) 8 (Typed.Schema.TModel [80%N]) plain_value = (Ok x, 8%nat)) /\
+  validate_c T_PLAIN [] true (Leaves.leaf_validate RoundtripRun.core_dumped) 8 (Typed.Schema.TModel [80%N])
+             (VDict [([97%N], VInt 7); ([98%N], VList [VList []])]) = (Err EValidation, 3%nat).
+Proof. split; [vm_compute; reflexivity|]. split; [vm_compute; reflexivity|]. split; [eexists; vm_compute; reflexivity | vm_compute; reflexivity]. Qed.
+(* a leaf costs one step whatever is in it: 10^30 like 1; 0.0.0.0/0 (2^32 addresses) like 10.0.0.0/8 *)
+Example C19_ex_cost_magnitude_free :
+  snd (validate_c [] [] true (Leaves.leaf_validate RoundtripRun.core_dumped) 0 (Typed.Schema.TLeaf Typed.Schema.LInt) (VInt (10 ^ 30))) = 1%nat /\
+  snd (validate_c [] [] true (Leaves.leaf_validate RoundtripRun.core_dumped) 0 (Typed.Schema.TLeaf Typed.Schema.LInt) (VInt 1)) = 1%nat /\
+  validate_c [] [] true (Leaves.leaf_validate RoundtripRun.core_dumped) 0 (Typed.Schema.TList (Typed.Schema.TLeaf Typed.Schema.LNet4))
+             (VList [VStr [48;46;48;46;48;46;48;47;48]%N; VStr [49;48;46;48;46;48;46;48;47;56]%N]) =
+    (Ok (Roundtrip.XList [Roundtrip.XLeaf (VTyped KNet4 [48;46;48;46;48;46;48;47;48]%N);
+                          Roundtrip.XLeaf (VTyped KNet4 [49;48;46;48;46;48;46;48;47;56]%N)]), 3%nat).
+Proof. repeat split; vm_compute; reflexivity. Qed.
